@@ -1,6 +1,8 @@
 package main
 
 import (
+	"fmt"
+
 	"verif/harness/schemaevo"
 	"verif/harness/schemagen"
 	"verif/harness/valgen"
@@ -76,6 +78,10 @@ func corpusNew() *schemagen.Program {
 		fld(4, "default", "extras", listT(ref("a.Extra")), nil),
 		fld(5, "optional", "twin", ref("a.Leaf"), nil),
 	}
+	// added fields WITH A DECLARED DEFAULT, every base type and an enum, default and optional
+	// requiredness: Leaf occurs as direct field, list element, map value, set element, map key and
+	// nested (twin), so new code reading OLD data must produce these defaults at every such position
+	leaf.Fields = append(leaf.Fields, leafDefaultFields()...)
 	node := p.Struct("a.Node")
 	node.Fields = append(node.Fields,
 		fld(3, "optional", "side", ref("a.Node"), nil),
@@ -91,6 +97,93 @@ func corpusNew() *schemagen.Program {
 	defs = append(defs, f.Defs[1:]...)
 	f.Defs = defs
 	return p
+}
+
+func leafDefaultFields() []*schemagen.Field {
+	i := func(v int64) *schemagen.Lit { return &schemagen.Lit{Kind: "int", Int: v} }
+	return []*schemagen.Field{
+		fld(6, "default", "qty", ty("i32"), i(1)),
+		fld(7, "optional", "unit", ty("string"), &schemagen.Lit{Kind: "string", Str: "pc"}),
+		fld(8, "default", "on", ty("bool"), &schemagen.Lit{Kind: "bool", Bool: true}),
+		fld(9, "optional", "oon", ty("bool"), &schemagen.Lit{Kind: "bool", Bool: true}),
+		fld(10, "default", "b", ty("byte"), i(7)),
+		fld(11, "optional", "ob", ty("byte"), i(-3)),
+		fld(12, "default", "sh", ty("i16"), i(300)),
+		fld(13, "optional", "osh", ty("i16"), i(-300)),
+		fld(14, "optional", "oqty", ty("i32"), i(70000)),
+		fld(15, "default", "big", ty("i64"), i(1<<40)),
+		fld(16, "optional", "obig", ty("i64"), i(-5)),
+		fld(17, "default", "ratio", ty("double"), &schemagen.Lit{Kind: "double", Bits: 0x3ff8000000000000}),
+		fld(18, "optional", "oratio", ty("double"), &schemagen.Lit{Kind: "double", Bits: 0xc002000000000000}),
+		fld(19, "default", "label", ty("string"), &schemagen.Lit{Kind: "string", Str: "each"}),
+		fld(20, "default", "raw", ty("binary"), &schemagen.Lit{Kind: "binary", Str: "rb"}),
+		fld(21, "optional", "oraw", ty("binary"), &schemagen.Lit{Kind: "binary", Str: "orb"}),
+		fld(22, "default", "col", enumT("a.Color"), &schemagen.Lit{Kind: "int", Int: 2, Enum: "a.Color.GREEN"}),
+		fld(23, "optional", "ocol", enumT("a.Color"), &schemagen.Lit{Kind: "int", Int: 7, Enum: "a.Color.BLUE"}),
+	}
+}
+
+// leafDefaultSlots: slots for the fields above; alt = values other than the defaults.
+func leafDefaultSlots(alt bool) []valgen.FieldVal {
+	var out []valgen.FieldVal
+	for k, f := range leafDefaultFields() {
+		v := valgen.ValueOfLit(f.Default)
+		if alt {
+			switch f.Type.Kind {
+			case "bool":
+				v = valgen.Bool(false)
+			case "byte", "i16", "i32", "i64", "enum":
+				v = valgen.Int(int64(k) - 2)
+			case "double":
+				v = valgen.Dbl(0x4059000000000000 + uint64(k))
+			case "string":
+				v = valgen.Str([]byte{byte('a' + k)})
+			case "binary":
+				v = valgen.Bin([]byte{byte(k), 0xfe})
+			}
+		}
+		out = append(out, valgen.FieldVal{ID: f.ID, V: v})
+	}
+	return out
+}
+
+// corpusOldValues: explicit values of the OLD corpus program: Leaf at every position (field, list
+// element, map value, set element, map key, nested through Node/Holder).
+func corpusOldValues() map[string][]*valgen.Value {
+	I := valgen.Int
+	S := func(s string) *valgen.Value { return valgen.Str([]byte(s)) }
+	fv := func(id int, v *valgen.Value) valgen.FieldVal { return valgen.FieldVal{ID: id, V: v} }
+	nilV := valgen.Nil()
+	leaf := func(x int64, note *valgen.Value) *valgen.Value {
+		return valgen.Struct([]valgen.FieldVal{fv(1, I(x)), fv(2, note)})
+	}
+	node := func(tag int64, next *valgen.Value) *valgen.Value {
+		return valgen.Struct([]valgen.FieldVal{fv(1, next), fv(2, I(tag))})
+	}
+	choice := valgen.Struct([]valgen.FieldVal{fv(1, nilV), fv(2, valgen.Some(S("t")))})
+	holder := func(n int) *valgen.Value {
+		var leaves, uniq []*valgen.Value
+		var byName, keyed [][2]*valgen.Value
+		for i := 0; i < n; i++ {
+			note := nilV
+			if i%2 == 0 {
+				note = valgen.Some(S(fmt.Sprintf("n%d", i)))
+			}
+			leaves = append(leaves, leaf(int64(10+i), note))
+			uniq = append(uniq, leaf(int64(20+i), note))
+			byName = append(byName, [2]*valgen.Value{S(fmt.Sprintf("k%d", i)), leaf(int64(30+i), note)})
+			keyed = append(keyed, [2]*valgen.Value{leaf(int64(40+i), note), I(int64(i))})
+		}
+		return valgen.Struct([]valgen.FieldVal{
+			fv(1, I(5)), fv(2, leaf(1, valgen.Some(S("direct")))), fv(3, choice), fv(4, valgen.List(leaves)),
+			fv(5, valgen.Map(byName)), fv(6, valgen.List(uniq)), fv(7, I(2)),
+			fv(8, node(1, node(2, nilV))), fv(9, valgen.Map(keyed)),
+		})
+	}
+	return map[string][]*valgen.Value{
+		"a.Holder": {holder(1), holder(3)},
+		"a.Leaf":   {leaf(9, nilV), leaf(-1, valgen.Some(S("x")))},
+	}
 }
 
 // corpusValues: explicit values of the new corpus program (struct name -> values), run first.
@@ -114,7 +207,8 @@ func corpusValues() map[string][]*valgen.Value {
 		if extras != nil {
 			ex = valgen.List(extras)
 		}
-		return valgen.Struct([]valgen.FieldVal{fv(1, I(x)), fv(3, w), fv(2, note), fv(4, ex), fv(5, twin)})
+		fs := []valgen.FieldVal{fv(1, I(x)), fv(3, w), fv(2, note), fv(4, ex), fv(5, twin)}
+		return valgen.Struct(append(fs, leafDefaultSlots(x%2 == 1)...))
 	}
 	nilV := valgen.Nil()
 	dbl := func(bits uint64) *valgen.Value { return valgen.Some(valgen.Dbl(bits)) }
